@@ -17,7 +17,7 @@ from checks import reapers_common as rc
 NSIM = {"quick": 150, "thorough": 1500}
 PER_PREFIX = {"quick": 4, "thorough": 6}
 MC = ["Reapers_MC.cfg", "Reapers_MCLive.cfg", "Reapers_MCGrid.cfg", "Reapers_MCCluster.cfg"]
-MC_BIG = ["Reapers_MCDeep.cfg", "Reapers_MCGrid2.cfg", "Reapers_MCFull.cfg"]     # thorough tier only
+MC_BIG = ["Reapers_MCDeep.cfg", "Reapers_MCLiveDeep.cfg", "Reapers_MCGrid2.cfg", "Reapers_MCFull.cfg"]     # thorough tier only
 
 
 def lifecycle_liveness_behaviours(run, rng):
@@ -41,6 +41,17 @@ def lifecycle_liveness_behaviours(run, rng):
             for i in range(n2):
                 for f in ("poolPatch", "deleteFail", "statusPatch", "mainPatch"):
                     behs.append({"cfg": cfg, "steps": lc.with_fault(tp, {i: f}) + [{"a": "Rec"}], "tag": "timeout:%s:%d:%s" % (kind, i, f)})
+        # (c) registered in time but never initialized (startup / ephemeral taint kept, node NotReady, extended resource never
+        #     reported): the real controller registers the node itself; reconciles around 900 s after that and much later
+        for ready in (False, True):
+            steps = [{"a": "Rec"}, {"a": "Rec"},
+                     {"a": "NodeAppears", "unreg": True, "startup": True, "eph": True, "ready": ready, "res": False},
+                     {"a": "Rec"}, {"a": "Rec"}, {"a": "Tick", "d": 290}, {"a": "Rec"}, {"a": "Tick", "d": 12}, {"a": "Rec"},
+                     {"a": "Tick", "d": 585}]
+            for _ in range(16):
+                steps += [{"a": "Rec"}, {"a": "Tick", "d": 1}]
+            steps += [{"a": "Rec"}, {"a": "Tick", "d": 7200}, {"a": "Rec"}, {"a": "Restart"}, {"a": "Rec"}]
+            behs.append({"cfg": cfg, "steps": steps, "tag": "c16-uninitialized:ready=%s" % ready})
     return behs
 
 
